@@ -59,10 +59,15 @@ def canaries(pr):
     return [("fifo_selecting_the_newest_lot_must_fail", newest_first)]
 
 
+def native(desc):
+    from props import C09
+    return C09.native(desc)
+
+
 def lot_window(pr):
     """The window of lots offered to a disposal: lots up to the last one not later than the event, found through keys that order like (instant, id)."""
     from props import C09
-    return C09.set_to_index_window(pr)
+    return C09.set_to_index_window(pr) + C09.key_order(pr)
 
 
 MANIFEST_ENTRY = {
